@@ -351,8 +351,26 @@ def _full_mask_of(e, src) -> bool:
             if mentions_src and not row_inside:
                 # the mask itself must not be reduced to one row afterwards: x = isnan(src)[0]
                 if not any(isinstance(p, ast.Subscript) and p.value is n and isinstance(p.slice, ast.Constant) for p in ast.walk(e)) \
-                        and not _row_of_unary(e, n):
+                        and not _row_of_unary(e, n) and not _reduced_over_rows(e, n):
                     return True
+    return False
+
+
+def _reduced_over_rows(e, call) -> bool:
+    """np.all(~isnan(src), axis=0) / mask.any(0) / .sum(axis=0): the per-RDM masks are merged into one before the comparison, so
+    two RDMs that miss different entries are no longer told apart"""
+    for p in ast.walk(e):
+        if isinstance(p, ast.Call) and _leaf(p.func) in ('all', 'any', 'sum', 'prod', 'min', 'max', 'logical_and', 'logical_or'):
+            is_np = isinstance(p.func, ast.Attribute) and isinstance(p.func.value, ast.Name) and p.func.value.id in ('np', 'numpy')
+            operand = (p.args[0] if p.args else None) if is_np else (p.func.value if isinstance(p.func, ast.Attribute) else None)
+            if operand is None or not any(x is call for x in ast.walk(operand)):
+                continue
+            ax = next((k.value for k in p.keywords if k.arg == 'axis'), None)
+            if ax is None:
+                rest = p.args[1:] if is_np else p.args
+                ax = rest[0] if rest else None
+            if isinstance(ax, ast.Constant) and ax.value == 0:
+                return True
     return False
 
 
